@@ -32,6 +32,43 @@ type LogClient struct {
 	FailGetN  int
 	GetFailed bool
 	getSeq    int
+	// call-level faults (reads included): FailCallN > 0 makes the FailCallN-th API call of any kind (Get, List and the
+	// mutating calls, counted together, 1-based) fail with an InternalError — exactly that one call, later calls work.
+	FailCallN int
+	Calls     int    // API calls seen so far (reads and writes)
+	FaultHit  string // "" or a description of the call that was failed
+}
+
+// callFault counts one API call and says whether it is the one to fail.
+func (l *LogClient) callFault(what string) error {
+	l.Calls++
+	if l.FailCallN > 0 && l.Calls == l.FailCallN {
+		l.FaultHit = what
+		return apierrors.NewInternalError(fmt.Errorf("injected fault at call %d (%s)", l.Calls, what))
+	}
+	return nil
+}
+
+// Get counts the call (FailCallN) and, separately, the reads of non-ConfigMap objects (FailGetN).
+func (l *LogClient) Get(ctx context.Context, key client.ObjectKey, obj client.Object, opts ...client.GetOption) error {
+	if err := l.callFault("get " + kindOf(l.Scheme(), obj) + " " + key.String()); err != nil {
+		return err
+	}
+	if l.FailGetN > 0 && kindOf(l.Scheme(), obj) != "ConfigMap" {
+		l.getSeq++
+		if l.getSeq == l.FailGetN {
+			l.GetFailed = true
+			return apierrors.NewInternalError(fmt.Errorf("injected read fault at get %d (%s %s)", l.getSeq, kindOf(l.Scheme(), obj), key))
+		}
+	}
+	return l.Client.Get(ctx, key, obj, opts...)
+}
+
+func (l *LogClient) List(ctx context.Context, list client.ObjectList, opts ...client.ListOption) error {
+	if err := l.callFault("list " + kindOf(l.Scheme(), list)); err != nil {
+		return err
+	}
+	return l.Client.List(ctx, list, opts...)
 }
 
 func NewLogClient(c client.Client) *LogClient { return &LogClient{Client: c, FailAt: -1} }
@@ -49,6 +86,11 @@ func kindOf(scheme *runtime.Scheme, obj runtime.Object) string {
 
 func (l *LogClient) pre(verb string, obj client.Object) (WriteRec, error) {
 	rec := WriteRec{Verb: verb, Kind: kindOf(l.Scheme(), obj), Key: obj.GetNamespace() + "/" + obj.GetName()}
+	if err := l.callFault(verb + " " + rec.Kind + " " + rec.Key); err != nil {
+		rec.Err = true
+		l.Log = append(l.Log, rec)
+		return rec, err
+	}
 	idx := l.sequence
 	l.sequence++
 	if l.FailAt >= 0 && idx >= l.FailAt {
@@ -70,18 +112,6 @@ func (l *LogClient) post(rec WriteRec, err error) error {
 		l.OnWrite(rec)
 	}
 	return err
-}
-
-// Get counts the reads of non-ConfigMap objects and injects the read fault (FailGetN).
-func (l *LogClient) Get(ctx context.Context, key client.ObjectKey, obj client.Object, opts ...client.GetOption) error {
-	if l.FailGetN > 0 && kindOf(l.Scheme(), obj) != "ConfigMap" {
-		l.getSeq++
-		if l.getSeq == l.FailGetN {
-			l.GetFailed = true
-			return apierrors.NewInternalError(fmt.Errorf("injected read fault at get %d (%s %s)", l.getSeq, kindOf(l.Scheme(), obj), key))
-		}
-	}
-	return l.Client.Get(ctx, key, obj, opts...)
 }
 
 func (l *LogClient) Create(ctx context.Context, obj client.Object, opts ...client.CreateOption) error {
